@@ -10,7 +10,7 @@
     sdo_read_exact_partial   expedited and normal uploads deliver exactly the object's bytes to the destination's decoder
     sdo_write_delivers       values of 1..4 bytes: request carries index, sub-index, size field, data; the device stores them
     array_helpers_consistent sdo_write_array followed by sdo_read_array returns the values; count in sub-index 0
-    abort_reported, wrong_object_reported, too_long_reported, counter_cycles
+    abort_reported, emergency_reported (since fix-c16-emergency), wrong_object_reported, too_long_reported, counter_cycles
   What does NOT hold (each with a counterexample theorem; witnesses replayed on the real code by harness/src/bin/c15.rs):
     c15/segment-response-scs0            the standard's Upload Segment Response (command specifier 0) does not decode:
                                          `CoeCommand` has no variant 0 -> Error::Wire(InvalidValue). EVERY segmented upload fails.
@@ -18,8 +18,6 @@
                                          (`trim_front(HeadersRaw::PACKED_LEN)`) instead of 9: three bytes late.
     c15/segmented-initiate-data-ignored  the data carried by the initiate response of a segmented upload is dropped
                                          (`total_len` starts at 0).
-    c15/emergency-not-reported           an emergency message is never reported as such: Error::Wire(InvalidValue), or a panic
-                                         (`assert_ne!`), and behind the assertion the contents are read from the wrong offset.
     c15/word-array-buffer                `[u16; N]::buffer()` is N bytes for 2N bytes of data: a normal upload of the
                                          matching object is refused as TooLong (`bufLen < obj.length` in the theorems).
     c15/write-zero-length                a value of 0 bytes is sent as "4 bytes" (size field 0).
@@ -185,36 +183,17 @@ theorem abort_reported_write (srv : Server) (cfg : Cfg) (index sub ctr : Nat) (v
 
 /-! ### emergency_reported -/
 
-/-- **emergency_reported fails.** An emergency message queued by the device before its response is never reported as
-    the property demands, whatever its error code: (1) if bits 5..7 of the code's low byte are not a `CoeCommand`
-    value the reply does not decode: `Error::Wire(InvalidValue)`; (2) otherwise the `assert_ne!` panics; (3) with the
-    assertion removed an emergency error is returned, but (see the concrete instance) with contents read 4 bytes late. -/
-theorem emergency_reported_counterexample {ρ : Type} (cfg : Cfg) (u : List Nat → Res ρ) (v : Nat → Nat → Bool)
-    (c code reg : Nat) (data : List Nat) (hr : 20 ≤ cfg.rmbx) :
-    (validDisc coeCommand (bitsOf (code % 256) 5 3) = false →
-      triage cfg u v (mkPdu cfg (image cfg.rmbx (emergencyMessage c code reg data))) = .err .wireInvalid) ∧
-    (validDisc coeCommand (bitsOf (code % 256) 5 3) = true → cfg.assertEmergency = true →
-      Res.isPanic (triage cfg u v (mkPdu cfg (image cfg.rmbx (emergencyMessage c code reg data)))) = true) :=
-  ⟨(triage_emergency cfg u v c code reg data hr).1, (triage_emergency cfg u v c code reg data hr).2.1⟩
-
-/-- The three cases on the specification server (error code 0x1234 / 0x5000, register 1). -/
-theorem emergency_reported_counterexample_instances :
-    let srv (code : Nat) : Server :=
-      { dict := [((0x2000, 0), [1, 2])], aborts := [], mode := .auto, seg := none, counter := 0, rmbx := 32, scs := 0,
-        emergencies := [(code, 1, [1, 2, 3, 4, 5])], strictLen := true }
-    Res.isPanic (sdoRead serverWorld cfg32 8 2 0x2000 (.index 0) (St.init 1 (srv 0x1234) [])).1 = true ∧
-    (sdoRead serverWorld cfg32 8 2 0x2000 (.index 0) (St.init 1 (srv 0x5000) [])).1 = .err .wireInvalid ∧
-    (sdoRead serverWorld { cfg32 with assertEmergency := false } 8 2 0x2000 (.index 0) (St.init 1 (srv 0x1234) [])).1 =
-      .err (.emergency 0x0302 4) := by
-  decide
-
-/-- **emergency_reported (partial: code whose low byte decodes as a command, assertion compiled out).** Then an
-    emergency error is returned (its contents are another matter). -/
-theorem emergency_reported_partial {ρ : Type} (cfg : Cfg) (u : List Nat → Res ρ) (v : Nat → Nat → Bool)
-    (c code reg : Nat) (data : List Nat) (hr : 20 ≤ cfg.rmbx)
-    (hv : validDisc coeCommand (bitsOf (code % 256) 5 3) = true) (ha : cfg.assertEmergency = false) :
-    ∃ c' r', triage cfg u v (mkPdu cfg (image cfg.rmbx (emergencyMessage c code reg data))) = .err (.emergency c' r') :=
-  (triage_emergency cfg u v c code reg data hr).2.2 hv ha
+/-- **emergency_reported.** (True since fix-c16-emergency.) Whenever the device has an emergency message pending — any
+    error code, any error register, any manufacturer data, followed by whatever else it queues — the next `sdo_read` /
+    `sdo_write` returns `MailboxError::Emergency { error_code, error_register }` with exactly the device's values. -/
+theorem emergency_reported (srv : Server) (cfg : Cfg) (fuel bufLen index ctr code reg : Nat) (access : SubIndex)
+    (value data : List Nat) (es : List (Nat × Nat × List Nat)) (stale : List (List Nat)) (hm : cfg.hasMailbox = true)
+    (hst : stale.length ≤ 10) (h16 : 16 ≤ cfg.rmbx) (hw : 16 ≤ cfg.wmbx) (h4 : value.length ≤ 4) (hc : code < 65536)
+    (hreg : reg < 256) (he : srv.emergencies = (code, reg, data) :: es) :
+    (sdoRead serverWorld cfg fuel bufLen index access (St.init ctr srv stale)).1 = .err (.emergency code reg) ∧
+    (sdoWrite serverWorld cfg index access value (St.init ctr srv stale)).1 = .err (.emergency code reg) :=
+  ⟨sdoRead_server_emergency srv cfg fuel bufLen index ctr code reg access data es stale hm hst h16 (by omega) hc hreg he,
+   sdoWrite_server_emergency srv cfg index ctr code reg access value data es stale hm hst h16 hw h4 hc hreg he⟩
 
 /-! ### wrong_object_reported -/
 
